@@ -362,7 +362,17 @@ static void sender_grid()
 // all histories (no de-duplication) up to a depth over two wrapper slots: store small / large sender, move-
 // assign, copy-assign, assign an empty wrapper, reset, move-construct a temporary, connect as rvalue (consumes)
 // and as lvalue (copyable wrappers); reference model: a slot is empty or holds a sender of a known kind
-enum SOp { S_STORE, S_MOVE, S_COPY, S_ASSIGN_EMPTY, S_RESET, S_MOVECONS, S_CONNECT_R, S_CONNECT_L, S_SELF_MOVE, S_STORE_LVALUE };
+enum SOp { S_STORE, S_MOVE, S_COPY, S_ASSIGN_EMPTY, S_RESET, S_MOVECONS, S_CONNECT_R, S_CONNECT_L, S_SELF_MOVE, S_STORE_LVALUE, S_STORE_FAIL };
+// a sender whose copy / move construction fails on demand: storing it into a wrapper throws inside the wrapper's
+// allocation of the new implementation object (a fault at that point; operator new failing is the same path)
+static bool g_fail_wrap = false;
+struct FSnd : LSnd
+{
+    FSnd() = default;
+    FSnd(FSnd const& o) : LSnd(o) { if (g_fail_wrap) throw std::runtime_error("sender copy failed"); }
+    FSnd(FSnd&& o) : LSnd(o) { if (g_fail_wrap) throw std::runtime_error("sender move failed"); }
+    FSnd& operator=(FSnd const&) = default;
+};
 struct SStep { int op, a, b; };
 template <typename W, bool COPYABLE>
 static void sender_histories(int depth)
@@ -381,8 +391,10 @@ static void sender_histories(int depth)
         if (COPYABLE) alpha.push_back({S_CONNECT_L, a, 0});
         if (COPYABLE) alpha.push_back({S_STORE_LVALUE, a, 0});    // construct / assign from a non-const lvalue sender
         if (COPYABLE) alpha.push_back({S_STORE_LVALUE, a, 1});
+        alpha.push_back({S_STORE_FAIL, a, 0});    // assignment of a sender whose construction inside the wrapper throws
+        alpha.push_back({S_STORE_FAIL, a, 1});    // the same through reset(sender)
     }
-    static const char* opn[] = {"store", "move_assign", "copy_assign", "assign_empty", "reset", "move_construct_temp_then_move_to", "connect_rvalue", "connect_lvalue", "self", "store_from_lvalue"};
+    static const char* opn[] = {"store", "move_assign", "copy_assign", "assign_empty", "reset", "move_construct_temp_then_move_to", "connect_rvalue", "connect_lvalue", "self", "store_from_lvalue", "store_sender_whose_construction_throws"};
     size_t const n = alpha.size();
     for (int ch = 0; ch < 3; ++ch)
     {
@@ -430,6 +442,21 @@ static void sender_histories(int depth)
                         case S_MOVECONS: { W t(std::move(w[st.a])); int m = model[st.a]; model[st.a] = -1; w[st.b] = std::move(t); model[st.b] = m; } break;
                         case S_CONNECT_R: connect(w[st.a], model[st.a], true); break;
                         case S_CONNECT_L: connect(w[st.a], model[st.a], false); break;
+                        case S_STORE_FAIL:
+                        {
+                            FSnd src;
+                            src.ch = ch;
+                            bool threw = false;
+                            g_fail_wrap = true;
+                            try { if (st.b == 0) w[st.a] = std::move(src); else w[st.a].reset(std::move(src)); }
+                            catch (std::runtime_error const&) { threw = true; }
+                            g_fail_wrap = false;
+                            SEQX_CHECK(threw, "differs-from-unerased", "storing a sender whose construction throws did not propagate the exception");
+                            // basic guarantee: the slot holds its old content or is empty - and says so truthfully (the
+                            // probe connects it, the ledger counts destructions)
+                            if (w[st.a].empty()) model[st.a] = -1;
+                            break;
+                        }
                         case S_STORE_LVALUE:
                             if constexpr (COPYABLE)
                             {
